@@ -105,6 +105,46 @@ def generate(run, num, depth, seed, cfg='Mdib_sim.cfg', module='MdibMC'):
     return behs
 
 
+def lifecycle_behaviours(run):
+    """Test purposes: one (shortest) behaviour per life-cycle word of a dynamic descriptor (add / delete / update /
+    state update, committed or aborted, up to 5 transactions) found by a breadth-first TLC run over a tiny universe."""
+    from verif.tlc import printed_values
+    res = run_tlc('MdibMC', 'Mdib_trk.cfg', workers=1, timeout=1800)
+    run.add_tlc(res)
+    words = {}
+    for v in printed_values(res.stdout, 'TRK'):
+        w = ''.join(v[1])
+        if w not in words:
+            words[w] = json.loads(v[2])
+    if len(words) < 500:
+        raise MachineryError(f'expected > 500 life-cycle words, got {len(words)}')
+    run.note('lifecycle_words_reachable', len(words))
+    if run.quick:
+        # greedy cover of all 3-letter factors (every order of three consecutive life-cycle steps), plus a seeded sample
+        import random
+        rnd = random.Random(run.seed)
+        all_words = sorted(words)
+
+        def grams(w):
+            return {w[i:i + 3] for i in range(len(w) - 2)} or {w}
+        left = set().union(*[grams(w) for w in all_words])
+        chosen = []
+        while left:
+            best = max(all_words, key=lambda w: (len(grams(w) & left), -len(w), w))
+            chosen.append(best)
+            left -= grams(best)
+        # every history that ends with the re-creation of the deleted handle (the case C02 singles out)
+        import re
+        chosen += [w for w in all_words if re.search('D.*A$', w) and w not in set(chosen)]
+        rest = [w for w in all_words if w not in set(chosen)]
+        rnd.shuffle(rest)
+        chosen += rest[:60]
+    else:
+        chosen = sorted(words)
+    run.note('lifecycle_words_replayed', len(chosen))
+    return [words[w] for w in chosen]
+
+
 def record(behs):
     traces = []
     for beh in behs:
@@ -133,8 +173,9 @@ def model_check(run, thorough_cfg=None):
 def run_family(run, pid, extra_behaviours=None):
     """Common body of the C02 and C03 checks."""
     model_check(run, 'Mdib_mc_thorough.cfg')
-    num = run.pick(300, 6000)
+    num = run.pick(200, 6000)
     behs = generate(run, num, run.pick(30, 40), run.seed)
+    behs = lifecycle_behaviours(run) + behs
     if extra_behaviours:
         behs = extra_behaviours + behs
     traces = record(behs)
